@@ -47,7 +47,8 @@ def equivalent_layers(h, p, L, w=None):
         w_el = numpy.zeros(L)
 
     hstep = (h.max()-h.min())/L
-    alt_bins = numpy.arange(h.min(), h.max(), hstep)
+    # exactly L lower slab edges (arange can round to L+1 edges, which drops the top layer)
+    alt_bins = numpy.linspace(h.min(), h.max(), L, endpoint=False)
     ix = numpy.digitize(h, alt_bins)
     for i in range(L):
         ix_tmp = ix==i+1
